@@ -28,7 +28,7 @@ SIZES = [0, 1, 2, 3, 7]
 
 
 IDIOMS = ["reshape_to_sibling_shape", "expand_to_sibling_shape", "reshape_own_shape", "slice_full", "concat_head_minus1", "cos_cast", "binop_after_expand",
-          "gather_dim_arith", "expand_const_target", "reshape_const_target"]
+          "gather_dim_arith", "expand_const_target", "reshape_const_target", "shape_cast_chain"]
 
 
 # hosts of the rewrite rules whose conditions look at shapes / symbolic dims: each gets shards of its own (symbolic inputs, all bindings)
@@ -52,10 +52,17 @@ def _plant_symbolic_idioms(g, kind=None):
     n, m = g.pick([1, 2, 3]), g.pick([1, 2, 3])
     names = g.pick([("N", "M", "N", "K"), ("N", "M", "N", "K"), ("N", "M", "K", "M"), ("N", "M", "N", "M"), ("A", "B", "C", "D"), ("N", "M", "P", "M"), ("N", None, "N", None)])
     dt = g.pick([F32, F32, I64])
-    x = g.add_input(dt, (n, m), style="smallint", dims=[names[0], names[1]])
+    k = kind or g.pick(IDIOMS)
+    xdims = [names[0], names[1]]
+    if k in ("shape_cast_chain", "gather_dim_arith") and g.chance(6):
+        # one dim static, the other symbolic: Shape is not folded as a whole but single entries are known
+        i_static = g.pick([1, 0])
+        xdims = [names[0], names[1]]
+        xdims[i_static] = (n, m)[i_static]
+        g.features.add("planted:sym_idiom:mixed_static_symbolic_shape")
+    x = g.add_input(dt, (n, m), style="smallint", dims=xdims)
     y = g.add_input(dt, (n, m), style="smallint", dims=[names[2], names[3]])
     g.features.add("planted:sym_idiom")
-    k = kind or g.pick(IDIOMS)
     g.features.add("planted:sym_idiom:" + k)
     c = lambda a: g.const_array(np.asarray(a, dtype=np.int64), how="node")  # noqa: E731
     sy = g.emit("Shape", [y])
@@ -89,6 +96,35 @@ def _plant_symbolic_idioms(g, kind=None):
         z = g.emit("ConstantOfShape", [sy[0]])
         zc = g.emit("Cast", [z[0]], to=modelgen.np2onnx(dt)) if z else None
         r = g.emit("Add", [x, zc[0]]) if zc else None
+    elif k == "shape_cast_chain":
+        # Cast chains over a Shape (or Size): after a Cast the dims survive only as values of the target type (BOOL collapses them to
+        # 0/1, FLOAT/INT32 change the element type of everything computed from them), optionally cast back to INT64, then consumed
+        # by the operators the folder tracks symbolically (Gather, Abs, Add, Concat -> Reshape target)
+        from onnx import TensorProto as TP
+
+        src = sx[0]
+        if g.chance(3):
+            a_ = g.emit("Abs", [src])
+            src = a_[0] if a_ else src
+        to1 = g.pick([TP.BOOL, TP.FLOAT, TP.INT32, TP.INT64, TP.DOUBLE, TP.BOOL])
+        s1 = g.emit("Cast", [src], to=to1)
+        s2 = g.emit("Cast", [s1[0]], to=TP.INT64) if s1 and g.chance(5) else s1
+        use = g.pick(["gather", "gather", "add", "abs", "concat_reshape"])
+        g.features.add(f"planted:sym_idiom:shape_cast_chain:to{to1}:{'back' if s2 is not s1 else 'stay'}:{use}")
+        r = None
+        if s2:
+            if use == "gather":
+                r = g.emit("Gather", [s2[0], c(g.pick([[1], [0], 1, -1]))], axis=0)
+            elif use == "add" and s2[0].dtype != np.bool_:
+                r = g.emit("Add", [s2[0], s2[0]])
+            elif use == "abs" and s2[0].dtype != np.bool_:
+                r = g.emit("Abs", [s2[0]])
+            elif use == "concat_reshape" and s2[0].dtype == I64:
+                h = g.emit("Slice", [s2[0], c([0]), c([1])])
+                t = g.emit("Concat", [h[0], c([-1])], axis=0) if h else None
+                r = g.emit("Reshape", [x, t[0]]) if t else None
+            else:
+                r = g.emit("Gather", [s2[0], c([0])], axis=0)
     elif k == "binop_after_expand":
         e = g.emit("Expand", [x, sy[0]])
         r = g.emit(g.pick(["Add", "Mul", "Sub"]), [e[0], y]) if e else None
